@@ -252,8 +252,10 @@ esac
 exit 0
 `
 
-func newLockedIPT() utiliptables.Interface { return lockset.LockedIPTables(iptablestesting.NewFakeIPTables()) }
-func newLockedIPSet() ipset.Interface       { return lockset.LockedIPSet(ipsettesting.NewFake("6.29")) }
+func newLockedIPT() utiliptables.Interface {
+	return lockset.LockedIPTables(iptablestesting.NewFakeIPTables())
+}
+func newLockedIPSet() ipset.Interface { return lockset.LockedIPSet(ipsettesting.NewFake("6.29")) }
 
 // ---------------------------------------------------------------- surfaces
 
